@@ -197,3 +197,12 @@ Definition init_linear_text (txt : string) : option bool :=
 (* a9's example of the fragment: a server with a channel-passing protocol, cuts, a call *)
 Example example_init_linear : init_linear_text example_text = Some true.
 Proof. vm_compute. reflexivity. Qed.
+
+Definition demo_pass_text : string := "prc[a] : 1 = print left; close self
+prc[b] : 1 = print right; wait a; print done; close self".
+Example demo_init_linear : init_linear_text demo_pass_text = Some true.
+Proof. vm_compute. reflexivity. Qed.
+
+(* a program outside the core fragment (split) is reported as such *)
+Example split_not_core : init_linear_text example_split_text = Some false.
+Proof. vm_compute. reflexivity. Qed.
